@@ -76,7 +76,7 @@ Definition check_gp_obligations (c : gp_case) : list bool :=
   let y := col_of (g_y c) in let mu := col_of (g_mu c) in
   let muq := col_of (g_muq c) in
   let Li := qinv n L in
-  let LTi := qinv n (qtr n n L) in
+  let LTi := qinv_checked n (qtr n n L) (qtr n n Li) in   (* (L^T)^-1, verified by L^T * X = I *)
   let Ai := qinv n A in
   let alpha := @gp_alpha_s ListOps n Li LTi y mu in
   let rows := combine (g_Kqx c) (combine (g_kqq_pt c) (g_muq c)) in
